@@ -37,7 +37,53 @@ def run_check(prop, src, tier):
     cp = subprocess.run([os.path.join(ROOT, "check"), prop, "--tier", tier], env=env, capture_output=True, text=True, cwd=ROOT)
     viol = [l for l in cp.stdout.splitlines() if l.startswith("violation ")]
     status = "CAUGHT" if cp.returncode == 1 and "VIOLATION property=" in cp.stdout else ("HARNESS-ERROR" if cp.returncode == 2 else "MISSED")
-    return {"status": status, "wall_s": round(time.time() - t0, 1), "first": viol[0][:300] if viol else ""}
+    replays = [l.split("replay=", 1)[1].strip() for l in cp.stdout.splitlines() if l.startswith("VIOLATION property=") and "replay=" in l]
+    return {"status": status, "wall_s": round(time.time() - t0, 1), "first": viol[0][:300] if viol else "", "_replays": replays}
+
+
+def replay_rc(prop, src, path):
+    env = dict(os.environ, QUANSINO_SRC=src)
+    env.pop("_VERIF_REEXEC", None)
+    cp = subprocess.run([os.path.join(ROOT, "check"), prop, "--replay", path], env=env, capture_output=True, text=True, cwd=ROOT)
+    return cp.returncode
+
+
+def harvest(name, prop, patched_src, replays, limit=2, prefix="seed", origin=None):
+    """Keep the shrunk reproductions of a caught change as regression inputs: corpus/<prop>/seed-<name>[-k].json.
+    Kept only if the replay holds on the unchanged tree and fails on the changed one (both re-checked here)."""
+    kept = []
+    cdir = os.path.join(ROOT, "corpus", prop)
+    os.makedirs(cdir, exist_ok=True)
+    # reproductions harvested earlier that just failed again on the changed tree stay as they are
+    for rel in replays:
+        if rel.startswith(f"corpus/{prop}/{prefix}-{name}") and os.path.exists(os.path.join(ROOT, rel)):
+            kept.append(rel)
+    used = {os.path.basename(k) for k in kept}
+    k = 0
+    for rel in (r for r in replays if r.startswith("replays/")):
+        if len(kept) >= limit:
+            break
+        src = os.path.join(ROOT, rel)
+        if not os.path.exists(src):
+            continue
+        data = json.load(open(src))
+        if len(json.dumps(data)) > 200_000:
+            continue
+        data["expect"] = "ok"
+        data["origin"] = origin or f"shrunk reproduction of seeded/{name} (fails with that change applied, must hold otherwise)"
+        while os.path.exists(os.path.join(cdir, fname := f"{prefix}-{name}" + (f"-{k}" if k else "") + ".json")):
+            k += 1
+        dst = os.path.join(cdir, fname)
+        json.dump(data, open(dst, "w"), indent=1, sort_keys=True)
+        rc_clean = replay_rc(prop, "/repo/src", dst)
+        rc_patched = replay_rc(prop, patched_src, dst)
+        if rc_clean == 0 and rc_patched == 1:
+            kept.append(os.path.relpath(dst, ROOT))
+            used.add(fname)
+        else:
+            print(f"   harvest rejected {os.path.basename(dst)}: replay rc clean={rc_clean} patched={rc_patched}")
+            os.remove(dst)
+    return kept
 
 
 def main():
@@ -46,6 +92,8 @@ def main():
     ap.add_argument("--tier", default="quick")
     ap.add_argument("--also", default="")
     ap.add_argument("--demo-only", action="store_true")
+    ap.add_argument("--harvest", action="store_true", help="store shrunk reproductions under corpus/<prop>/seed-<name>.json")
+    ap.add_argument("--only-missing", action="store_true", help="skip seeds that already have a result for the requested check")
     args = ap.parse_args()
     sdir = os.path.join(ROOT, "seeded")
     out_path = os.path.join(ROOT, "seeded_results.json")
@@ -56,6 +104,8 @@ def main():
         if not os.path.isdir(d) or (args.name and name != args.name):
             continue
         meta = json.load(open(os.path.join(d, "meta.json")))
+        if args.only_missing and f"{meta['property']}:{args.tier}" in results.get(name, {}).get("checks", {}) and not args.also:
+            continue
         scratch = f"/tmp/seedrun_{name}_{os.getpid()}"
         shutil.rmtree(scratch, ignore_errors=True)
         os.makedirs(scratch)
@@ -78,6 +128,9 @@ def main():
                     if prop not in saved_ev and os.path.exists(ev):
                         saved_ev[prop] = open(ev).read()
                     r = run_check(prop, os.path.join(scratch, "src"), args.tier)
+                    reps = r.pop("_replays", [])
+                    if args.harvest and r["status"] == "CAUGHT":
+                        r["corpus"] = harvest(name, prop, os.path.join(scratch, "src"), reps)
                     rec.setdefault("checks", {})[f"{prop}:{args.tier}"] = r
                     print(f"   {prop} ({args.tier}): {r['status']} {r['wall_s']}s {r['first'][:200]}")
             prev = results.get(name, {})
